@@ -29,13 +29,15 @@ CFG = {
                   "of the model, premises of the theorems (codec laws, permutation laws, grow n >= n) and are recorded from the real library for every case. "
                   "The composition theorems are stated on the other properties' models and inherit their trust: element type int for C07/C08 (the JSON model itself is "
                   "polymorphic), comparator laws plus cmp a b = 0 -> a = b for the tree-backed containers (the JSON object is keyed by the key's text), the ring as "
-                  "repaired by 0021 (no zero-value test in Dequeue) decoded into a fresh buffer of the same capacity (UnmarshalJSON enqueues, it does not clear), the "
+                  "repaired by 0021 (no zero-value test in Dequeue) decoded into a FRESH buffer (UnmarshalJSON enqueues, it does not clear) - of the same capacity "
+                  "(C15_ring, C15_restored_obeys_ring) or of ANY capacity >= 1 from a document of ANY length written by a ring of another capacity or by an array list "
+                  "(C15_ring_any_length / _any_source, C15_restored_obeys_ring_any_capacity / _from_arraylist: the last min(capacity, n) values, oldest first), the "
                   "B-tree on operation lists without Floor/Ceiling. The bridges between the JSON view and those models are field renamings (al_json/al_of_json, "
                   "cb_json/cb_of_json) or the code path itself (Clear(); Add / Put of the decoded values on the C07 / C01 model). The correspondence check still evaluates "
                   "the per-container abstractions of C15/Model.v (tree-backed containers as sorted-insertion tables - proved to agree with the tree-level decoders on every "
                   "document, C15_tree_decoders_agree, and with the red-black treeset / treebidimap on every operation list, C09_tree_abstract_agrees) and judges the suffix "
-                  "operations against the reference containers of C15/Spec.v. Ring buffers are exercised without zero-valued elements (the harness numbers the Go zero "
-                  "value -1). bslice / bmap Marshal/Unmarshal are one-line delegations to encoding/json and are only exercised by the first harness run (so is the bcache member map "
+                  "operations against the reference containers of C15/Spec.v. Ring buffers are exercised with zero-valued elements too (an empty slot and a zero element carry the same number), and are also fed "
+                  "documents longer than, as long as and shorter than their capacity (written by a ring of another capacity or by an array list). bslice / bmap Marshal/Unmarshal are one-line delegations to encoding/json and are only exercised by the first harness run (so is the bcache member map "
                   "WITHOUT deadlines there, values wrapped in its Iterator struct); bcache with deadlines, the rebuilt expiry index and the behaviour of the restored cache "
                   "are judged by the second run (c15bc) through C12.Check, whose theorems are C12's (lib/props/C12.py), not repeated in this property's theorem list. Strings that are not valid UTF-8 are outside the codec premise (encoding/json replaces the bytes).",
     "harness": "c15",
@@ -46,12 +48,13 @@ CFG = {
         {"harness": "c15bc", "name": "c15bc"},
     ],
     "theorems": [("C15.Props", [
-        "C15_linked_lists", "C15_arraylist", "C15_arraylist_usable", "C15_arraylist_unclipped_refuted", "C15_ring", "C15_ring_backing_refuted",
+        "C15_linked_lists", "C15_arraylist", "C15_arraylist_usable", "C15_arraylist_unclipped_refuted", "C15_ring", "C15_ring_any_length", "C15_ring_any_source", "C15_ring_backing_refuted",
         "C15_sets", "C15_linked_set", "C15_maps", "C15_tree_sorted", "C15_bidi", "C15_linkedmap",
         "C15_linkedmap_unquoted_refuted", "C15_linkedmap_bytesindex_refuted"]),
         ("C15.PropsComposeSeq", [
         "C15_restored_obeys_arraylist", "C15_restored_obeys_arrayqueue", "C15_restored_obeys_arraystack", "C15_restored_obeys_heap",
-        "C15_restored_obeys_linkedlist", "C15_restored_obeys_linkedlistqueue", "C15_restored_obeys_linkedliststack", "C15_restored_obeys_ring"]),
+        "C15_restored_obeys_linkedlist", "C15_restored_obeys_linkedlistqueue", "C15_restored_obeys_linkedliststack", "C15_restored_obeys_ring",
+        "C15_restored_obeys_ring_any_capacity", "C15_restored_obeys_ring_from_arraylist"]),
         ("C15.PropsComposeMap", [
         "C15_restored_obeys_hashset", "C15_restored_obeys_linkedhashset", "C15_restored_obeys_hashmap", "C15_restored_obeys_hashbidimap",
         "C15_restored_obeys_linkedhashmap", "C15_restored_obeys_rbtree", "C15_restored_obeys_treemap", "C15_restored_obeys_avltree",
